@@ -123,4 +123,7 @@ def trace_validation(ctx, pid):
     if fam and not kernels_only:
         from props import asm_validate
         res.merge(asm_validate.validate(ctx, fam))
+    if pid in ("C01", "C04"):
+        from props import asm_corr
+        asm_corr.dense_correspondence(ctx, res)
     return res
